@@ -1,3 +1,7 @@
 claim('C10',
       "For every pair of 64-bit ints and for every pair of mathematical integers carried by *big.Int (no value bound), the solver shows that + - * % negate abs/length and integral / return exactly the big-integer model's result (promotion instead of wrap), that zero divisors are errors, that toInt saturates, and that Compare and the six comparison operators are the exact integer order. This is a bounded-symbolic-execution result: complete over operand values, limited to the representation pairs int|*big.Int and to the kernels listed in the evidence.",
       "DESIGN.md §4 C10")
+
+claim('C04',
+      "Translation validation of the real compiler against itself: for each program of a rewrite-biased list and each of the 11 rewrite switches (plus all-off) whose disabling changes the emitted bytecode, the optimised and the de-optimised bytecode are executed symbolically on the real VM over an enumerated input-shape universe with symbolic leaves, and z3 shows the output/error sequences equal on every path (or yields an input, replayed natively with -tags verif). Bounded by the program list, the input shapes, 8 outputs and the fuel; complete over leaf values within the stated ranges.",
+      "DESIGN.md §4 C04", category='translation_validation')
